@@ -87,14 +87,17 @@ def run(ctx):
                         "nix FromStr accepts exactly the variant identifiers", "std::process::ExitStatus::{code,signal}"]
     ctx.rule("R19.1", "to_nix, from_nix, From<i32> and nix's compiled discriminants agree on the seven first-class signals "
                       "and these are the POSIX numbers 1,2,3,9,10,12,15; every non-first-class nix signal maps to Custom")
+    ctx.also("R19.1", 'the unix signal source attaches to each OS listener the variant of the same name (shared with R01.6)')
     ctx.rule("R19.2", "the unix Display string of each first-class signal is the identifier of its to_nix() variant, so it "
                       "parses back (through NixSignal::from_str) to the same signal; Custom(n) displays as the number")
+    ctx.also("R19.2", 'the JSON spelling of a named signal is the same SIG-prefixed name (shared with R16.7)')
     ctx.rule("R19.3", "from_unix_str tries the number, then the upper-cased name, then SIG+upper-cased name; every "
                       "NixSignal::from_str argument derives from to_ascii_uppercase")
     ctx.rule("R19.4", "FromStr tries the Windows control names first and falls back to unix names; both tables upper-case "
                       "their input; the only Windows name that shadows a differently-valued unix name is the documented STOP")
     ctx.rule("R19.5", "ProcessEnd::from(ExitStatus): code 0 -> Success, code != 0 -> ExitError(code), terminating signal -> "
                       "ExitSignal(Signal::from(i32)), decided per arm of the (code, signal, stopped) match")
+    ctx.also("R19.5", 'the inverse into_exitstatus puts the whole exit-code byte in bits 8..16')
     ctx.rule("R19.6", "--map-signal splits at the first ':' and maps an empty right-hand side to None, a non-empty one through "
                       "the same Signal parser as the left-hand side")
 
